@@ -4,9 +4,11 @@ package tbtc
 
 import (
 	"context"
+	"math/big"
 
 	"github.com/ipfs/go-log/v2"
 
+	"github.com/keep-network/keep-core/pkg/chain"
 	"github.com/keep-network/keep-core/pkg/protocol/group"
 	"github.com/keep-network/keep-core/pkg/protocol/inactivity"
 	"github.com/keep-network/keep-core/pkg/tecdsa/dkg"
@@ -60,4 +62,26 @@ func VerifC47InactivitySubmitClaim(
 		groupMembers,
 		waitForBlockFn,
 	).SubmitClaim(ctx, memberIndex, claim, signatures)
+}
+
+// VerifC47ExecuteDkgValidation runs dkgExecutor.executeDkgValidation (result
+// validation followed by the scheduling of the result approval) on an executor
+// that has only the fields this method reads.
+func VerifC47ExecuteDkgValidation(
+	groupParameters *GroupParameters,
+	operatorIDFn func() (chain.OperatorID, error),
+	tbtcChain Chain,
+	waitForBlockFn func(context.Context, uint64) error,
+	seed *big.Int,
+	submissionBlock uint64,
+	result *DKGChainResult,
+	resultHash [32]byte,
+) {
+	de := &dkgExecutor{
+		groupParameters: groupParameters,
+		operatorIDFn:    operatorIDFn,
+		chain:           tbtcChain,
+		waitForBlockFn:  waitForBlockFn,
+	}
+	de.executeDkgValidation(seed, submissionBlock, result, resultHash)
 }
